@@ -103,3 +103,84 @@ Definition op_ok (o : op) : Prop :=
   end.
 
 Definition key_bytes_ok (k : skey) : Prop := bytes_ok (pk_enc (sk_pub k)) /\ lenN (pk_enc (sk_pub k)) < 2 ^ 64.
+
+(* ---- the sorted-map specification of the update API (C08) ----
+   Every operation is: delete the named keys, then write the named (key, canonical value) pairs in
+   order, then write the signer's public key under its scheme's key. Nothing else changes. *)
+Definition ip_key (a : bytes) : bytes := if lenN a =? 4 then k_ip else k_ip6.
+Definition udp_key (a : bytes) : bytes := if lenN a =? 4 then k_udp else k_udp6.
+Definition tcp_key (a : bytes) : bytes := if lenN a =? 4 then k_tcp else k_tcp6.
+
+Definition removes (o : op) : list bytes :=
+  match o with
+  | ORemoveUdp4 => [k_udp] | ORemoveUdp6 => [k_udp6] | ORemoveTcp => [k_tcp] | ORemoveTcp6 => [k_tcp6]
+  | ORemoveUdpSocket => [k_ip; k_udp] | ORemoveUdp6Socket => [k_ip6; k_udp6]
+  | ORemoveTcpSocket => [k_ip; k_tcp] | ORemoveTcp6Socket => [k_ip6; k_tcp6]
+  | ORemoveKey key => [key]
+  | ORemoveInsert rm _ => rm
+  | _ => []
+  end.
+
+Definition inserts (o : op) : list (bytes * bytes) :=
+  match o with
+  | OInsert key v => [(key, enc_tval v)]
+  | OInsertRaw key v => [(key, v)]
+  | OSetIp a => [(ip_key a, enc_string a)]
+  | OSetUdp4 p => [(k_udp, enc_uint p)] | OSetUdp6 p => [(k_udp6, enc_uint p)]
+  | OSetTcp4 p => [(k_tcp, enc_uint p)] | OSetTcp6 p => [(k_tcp6, enc_uint p)]
+  | OSetClientInfo strs => [(k_client, enc_strings strs)]
+  | OSetUdpSocket a p => [(ip_key a, enc_string a); (udp_key a, enc_uint p)]
+  | OSetTcpSocket a p => [(ip_key a, enc_string a); (tcp_key a, enc_uint p)]
+  | ORemoveInsert _ ins => map (fun kv => (fst kv, enc_string (snd kv))) ins
+  | OSetPublicKey p => [(scheme_key (pk_scheme p), enc_string (pk_enc p))]
+  | _ => []
+  end.
+
+Definition remove_keys (keys : list bytes) (m : smap) : smap := fold_left (fun m key => sm_remove key m) keys m.
+Definition insert_pairs (kvs : list (bytes * bytes)) (m : smap) : smap :=
+  fold_left (fun m kv => sm_insert (fst kv) (snd kv) m) kvs m.
+
+Definition spec_pairs (o : op) (k : skey) (m : smap) : smap :=
+  with_key (insert_pairs (inserts o) (remove_keys (removes o) m)) k.
+
+(* previous values, one per key, each looked up just before that key is removed / written *)
+Fixpoint prev_removed (keys : list bytes) (m : smap) : list (option bytes) :=
+  match keys with [] => [] | key :: t => sm_get key m :: prev_removed t (sm_remove key m) end.
+Fixpoint prev_inserted (kvs : list (bytes * bytes)) (m : smap) : list (option bytes) :=
+  match kvs with [] => [] | (key, v) :: t => sm_get key m :: prev_inserted t (sm_insert key v m) end.
+
+(* what an update returns: the previous value(s) of what it touched, as the typed accessors
+   reported them before the call *)
+Definition spec_ret (o : op) (r : record) : ret :=
+  match o with
+  | OInsert key _ | OInsertRaw key _ => RRaw (get_raw r key)
+  | OSetIp a => RIp (if lenN a =? 4 then ip4 r else ip6 r)
+  | OSetUdp4 _ => RPort (udp4 r) | OSetUdp6 _ => RPort (udp6 r)
+  | OSetTcp4 _ => RPort (tcp4 r) | OSetTcp6 _ => RPort (tcp6 r)
+  | ORemoveInsert rm ins =>
+      RLists (prev_removed rm (content r))
+             (prev_inserted (inserts (ORemoveInsert rm ins)) (remove_keys rm (content r)))
+  | _ => RUnit
+  end.
+
+(* running a history: the record the caller holds after each call (unchanged by a failed call) *)
+Section Run.
+Variable c : crypto.
+Variable kt : keytype.
+Fixpoint run (r : record) (h : list (op * skey * signer)) : record :=
+  match h with
+  | [] => r
+  | (o, k, sg) :: t => run (snd (step c kt r o k sg)) t
+  end.
+End Run.
+
+(* arguments of builder methods *)
+Definition bcall_ok (b : bcall) : Prop :=
+  match b with
+  | BIp4 a => bytes_ok a /\ lenN a = 4
+  | BIp6 a => bytes_ok a /\ lenN a = 16
+  | BTcp4 p | BTcp6 p | BUdp4 p | BUdp6 p => p < 65536
+  | BClient strs => tval_ok (TList strs)
+  | BVal key v => lenN key < 2 ^ 64 /\ tval_ok v
+  | BRaw key v => lenN key < 2 ^ 64 /\ bytes_ok v
+  end.
